@@ -314,6 +314,92 @@ def stream_e2e(ctx, hj, n, name="end-to-end"):
             )
 
 
+def live_session_case(ctx, hj, rng, script=None):
+    """a LIVE session (real JsonHistory object) appends / flushes / clears / deletes mid-session while a
+    forced GC with a tiny limit runs 'from another session': the live session's file must survive"""
+    from xonsh.built_ins import XSH
+    from xonsh.environ import Env
+
+    root = common.scratch_root() / f"live-{uuid.uuid4().hex[:8]}"
+    hdir = root / "history_json"
+    hdir.mkdir(parents=True)
+    base = int(time.time()) - 100000
+    try:
+        XSH.env = Env(XONSH_DATA_DIR=str(root), XONSH_DEBUG=0, HISTCONTROL="", XONSH_STORE_STDOUT=False)
+        XSH.history = None
+        hj.uptime.boottime = lambda: base - 5000
+        # a few closed sessions, some NEWER than the live session's start (the live one looks old to GC)
+        nclosed = rng.randint(1, 4)
+        for i in range(nclosed):
+            p = str(hdir / f"xonsh-{uuid.UUID(int=rng.getrandbits(128))}.json")
+            t = float(base + 1000 * rng.randint(1, 30))
+            _write_hist(hj, p, rng.choice([1, 2, 3]), t - 10.0, t, False)
+        start = float(base + 1000 * rng.randint(0, 10))
+        hist = hj.JsonHistory(sessionid=uuid.UUID(int=rng.getrandbits(128)), buffersize=rng.choice([1, 2, 3, 50]), gc=False,
+                              ts=[start, None], locked=True, env={})
+        live = hist.filename
+        if script is None:
+            script = [rng.choice(["append", "append", "append", "flush", "clear", "delete", "gc"]) for _ in range(rng.randint(2, 8))] + ["gc"]
+        lost = None
+        n = 0
+        for op in script:
+            if op == "append":
+                n += 1
+                hf = hist.append({"inp": f"live-cmd-{n}", "rtn": 0, "ts": [start + n, start + n + 0.5], "out": None, "cwd": "/"})
+                if hf is not None:
+                    hf.join(30)
+            elif op == "flush":
+                hf = hist.flush()
+                if hf is not None:
+                    hf.join(30)
+            elif op == "clear":
+                hist.clear()
+            elif op == "delete":
+                try:
+                    hist.delete("live-cmd-1$")
+                except Exception as e:  # noqa: BLE001
+                    lost = f"history delete raised {type(e).__name__}: {e}"
+                    break
+            elif op == "gc":
+                unit = rng.choice(["files", "commands", "b"])
+                gc = hj.JsonHistoryGC(wait_for_shell=False, size=(rng.choice([0, 1]), unit), force=True)
+                gc.join(60)
+                if gc.is_alive():
+                    raise common.InfraError("GC thread did not finish in 60 s")
+                if not os.path.exists(live):
+                    lost = f"after {script[: script.index(op) + 1] if op in script else script}: GC (forced, limit <= 1 {unit}) deleted the file of the live session"
+                    break
+        return script, lost
+    finally:
+        XSH.history = None
+        shutil.rmtree(root, ignore_errors=True)
+
+
+def stream_live(ctx, hj, n, name="live-session"):
+    ctx.stream_rule(
+        name,
+        "a real JsonHistory session (locked=True) appends, flushes mid-session (buffer sizes 1-50), clears and deletes from its "
+        "history while forced GC passes with limit 0/1 (files/commands/bytes) run as from another session, next to 1-4 closed "
+        "session files some of which are newer; the live session's file must never be deleted; non-trivial = script with a "
+        "mid-session flush/clear/delete before a GC pass",
+    )
+    import contextlib
+    import io
+
+    for i in range(n):
+        if ctx.enough_failures():
+            break
+        with contextlib.redirect_stdout(io.StringIO()), contextlib.redirect_stderr(io.StringIO()):
+            script, lost = live_session_case(ctx, hj, ctx.rng)
+        nontriv = any(o in script[:-1] for o in ("flush", "clear", "delete"))
+        ctx.case(name, tuple(script) + (i,), nontriv, {"script": script})
+        for o in script:
+            ctx.count(f"live/{o}")
+        if lost:
+            key = "clear-unlocks-live-session" if "clear" in script else None
+            ctx.spec_failure({"stream": name, "script": script}, {"what": lost}, "GC deleted the history file of a live (locked) session", key)
+
+
 def sqlite_case(ctx, rng, n_keep, rows):
     common.setup_repo_imports()
     import xonsh.history.sqlite as hs
@@ -385,7 +471,19 @@ def replay_known(ctx, hj):
     """witnesses of known_findings.json first: an open one is expected to fail, a fixed one must pass"""
     for f in ctx.known:
         w = f["witness"]
-        if "rows" in w:
+        if "script" in w:
+            import contextlib
+            import io
+
+            fails, obs = False, None
+            for _ in range(3):  # the GC unit/limit inside the script are drawn at random: try a few
+                with contextlib.redirect_stdout(io.StringIO()), contextlib.redirect_stderr(io.StringIO()):
+                    _, lost = live_session_case(ctx, hj, ctx.rng, script=list(w["script"]))
+                if lost:
+                    fails, obs = True, {"what": lost}
+                    break
+            case = {"stream": "live-session", "script": w["script"]}
+        elif "rows" in w:
             kept = sqlite_case(ctx, ctx.rng, w["N"], w["rows"])
             fails = len(kept) != min(w["N"], len(w["rows"]))
             case = {"stream": "sqlite-keep-newest", "N": w["N"], "rows": w["rows"]}
@@ -419,6 +517,7 @@ def run(ctx):
     stream_translated(ctx, hj, ctx.n(60, 600))
     stream_select_vs_spec(ctx, hj, ctx.n(150, 3000))
     stream_e2e(ctx, hj, ctx.n(48, 600))
+    stream_live(ctx, hj, ctx.n(60, 800))
     stream_sqlite(ctx, ctx.n(25, 400))
 
 
